@@ -45,10 +45,11 @@ package tree
 //@   modifies var position
 
 //@ closure Init.memoize
-//@   requires[C06] RT() && 0 <= rule && 0 <= begin && begin <= n && tokenIndexStart <= tokenIndex
-//@   requires[C06] matched == OK(RULEOF(rule), begin) && MX(RULEOF(rule), begin, maxToken) == maxToken
-//@   requires[C06] imp(matched, position == END(RULEOF(rule), begin) && begin <= position && tokenIndex > tokenIndexStart
-//@                 && live() == APP(RULEOF(rule), begin, absAt(tokenIndexStart))
+//@   requires[C06,C13] RT() && 0 <= rule && 0 <= begin && begin <= n && tokenIndexStart <= tokenIndex
+//@   requires[C06,C01] matched == OK(RULEOF(rule), begin)
+//@   requires[C06,C11] MX(RULEOF(rule), begin, maxToken) == maxToken
+//@   requires[C06,C01] imp(matched, position == END(RULEOF(rule), begin) && begin <= position && tokenIndex > tokenIndexStart)
+//@   requires[C06,C03] imp(matched, live() == APP(RULEOF(rule), begin, absAt(tokenIndexStart))
 //@                 && tree.tree[tokenIndex - 1] == mk(token, RULEOF(rule), begin, position))
 //@   requires[hint] splitT(elems(tree.tree), tokenIndexStart, tokenIndex - tokenIndexStart)
 //@   ensures  RT()
